@@ -85,7 +85,8 @@ Definition map_entry_cond (x : val) : list val :=
   match x with
   | VNamed key v =>
     match v with
-    | VDrv _ | VGormValuer _ _ | VS (SBytes _) => [VCmp OEq (VQStr key) v]   (* []byte: one value *)
+    | VDrv _ | VGormValuer _ _ | VS (SBytes _)       (* []byte: one value *)
+    | VList LU8 _ => [VCmp OEq (VQStr key) v]   (* Elem().Kind() == Uint8: taken for a []byte *)
     | _ => match slice_elems v with
            | Some vs => [VIn (VQStr key) vs]
            | None => [VCmp OEq (VQStr key) v]
